@@ -70,8 +70,10 @@ def homomorphism(h, which='sl2_to_so21', shape=()):
     if needs_inv:
         _nonsingular(h, A)
         _nonsingular(h, B)
+    mk = h.mark()
     fa, fb = f(A.copy()), f(B.copy())
     fab = f(A @ B)
+    h.defined(f"finite[{which}]", mk)          # no division except by the determinants assumed non-zero
     h.eq(f"hom[{which}]", fab, fa @ fb)
     I = np.zeros(shape + (n, n), dtype=A.dtype)
     for i in range(n):
